@@ -20,6 +20,9 @@ package main
 //@   callsite[C18] fmt.Print* !isLoad && round == "check"
 //@   callsite[C18] setDefineInfos !isLoad && round == "check"
 //@   callsite[C18] appendSignature !isLoad && round == "check"
+//@   # ... and printing is the only thing isLoad changes: a preloaded file is read to its end in every
+//@   # round exactly like the target (the state its check round leaves is what the target starts from)
+//@   ensures[C18] called(Read)
 
 //@ # Hints are produced only for methods defined in the file being reported on: the articles are
 //@ # global and also hold the definitions found while preloading.
